@@ -74,6 +74,7 @@ pub struct FuncInfo {
     pub wit_async: bool,
     pub is_method: bool,
     pub import: bool,
+    pub iface_id: Option<wit_parser::InterfaceId>,
 }
 
 #[derive(Clone, Debug)]
@@ -192,7 +193,9 @@ fn unit_payload_intrinsic(name: &str) -> Option<(Sig, String)> {
             ("drop-writable", sig(&[I32], &[]), false),
         ];
         for (op, s, may_async) in table {
-            if n == format!("[{kind}-{op}-unit]") && (!asy || may_async) {
+            // wit-component (`prefixed_payload`, case "unit") ignores whatever follows the `]`;
+            // wit-parser's `wasm_import_name(.., ty: None, ..)` appends the function name
+            if n.starts_with(&format!("[{kind}-{op}-unit]")) && (!asy || may_async) {
                 return Some((s, format!("[{kind}-{op}-unit]")));
             }
         }
@@ -340,6 +343,10 @@ pub fn expected(resolve: &Resolve, world: WorldId) -> Expected {
                 wit_async: is_wit_async(f),
                 is_method: !matches!(f.kind, FunctionKind::Freestanding | FunctionKind::AsyncFreestanding),
                 import: true,
+                iface_id: k.and_then(|k| match &w.imports[k] {
+                    WorldItem::Interface { id, .. } => Some(*id),
+                    _ => None,
+                }),
             });
             e.fn_names.insert(f.name.clone());
             for (m, asy) in [(SYNC, false), (ACB, true)] {
@@ -409,6 +416,10 @@ pub fn expected(resolve: &Resolve, world: WorldId) -> Expected {
                 wit_async: is_wit_async(f),
                 is_method: !matches!(f.kind, FunctionKind::Freestanding | FunctionKind::AsyncFreestanding),
                 import: false,
+                iface_id: k.and_then(|k| match &w.exports[k] {
+                    WorldItem::Interface { id, .. } => Some(*id),
+                    _ => None,
+                }),
             });
             e.fn_names.insert(f.name.clone());
             let ex = |m, kind| resolve.wasm_export_name(m, WasmExport::Func { interface: k, func: f, kind });
@@ -487,6 +498,51 @@ impl Expected {
         None
     }
 
+    /// For an unknown `[future-<op>-<idx>]<func>` / `[stream-…]` import: say *how* it is wrong.
+    pub fn diagnose_payload_intrinsic(&self, module: &str, name: &str) -> Option<String> {
+        let n = name.strip_prefix("[async-lower]").unwrap_or(name);
+        if !(n.starts_with("[future-") || n.starts_with("[stream-")) {
+            return None;
+        }
+        let close = n.find(']')?;
+        let inside = &n[1..close];
+        let rest = &n[close + 1..];
+        let (op, idx) = inside.rsplit_once('-')?;
+        const OPS: [&str; 7] = ["new", "read", "write", "cancel-read", "cancel-write", "drop-readable", "drop-writable"];
+        let opname = op.split_once('-').map(|x| x.1).unwrap_or("");
+        if !OPS.contains(&opname) {
+            return Some(format!("unknown-operation:{}", op.split_once('-').map(|x| x.1).unwrap_or(op)));
+        }
+        if idx.parse::<u32>().is_err() {
+            return Some("bad-index".into());
+        }
+        let same_but_index = self.imports.keys().any(|(m, k)| {
+            let k = k.strip_prefix("[async-lower]").unwrap_or(k);
+            m == module
+                && k.find(']').map_or(false, |c| {
+                    k[c + 1..] == *rest && k[1..c].rsplit_once('-').map_or(false, |(o, i)| o == op && i != idx)
+                })
+        });
+        if same_but_index {
+            return Some("wrong-type-index".into());
+        }
+        if rest.is_empty() {
+            return Some("empty-function-name".into());
+        }
+        if self.fn_names.contains(rest) {
+            // the function exists, but has no future/stream at all or lives in another module
+            return Some("function-without-such-payload-or-wrong-module".into());
+        }
+        if self
+            .fn_names
+            .iter()
+            .any(|f| f.ends_with(&format!(".{rest}")) || f.starts_with(&format!("[{rest}]")))
+        {
+            return Some("function-name-without-its-[kind]resource.-prefix".into());
+        }
+        Some("unknown-function".into())
+    }
+
     /// Replace world-specific identifiers so that one defect gives one key.
     pub fn normalise(&self, name: &str) -> String {
         let mut out = name.to_string();
@@ -532,6 +588,7 @@ impl Expected {
             res.push_str(rest);
             out = res;
         }
+        let out = out.replace("<iface>#<fn", "<fn");
         // indices of futures/streams
         let mut o2 = String::new();
         let cs: Vec<char> = out.chars().collect();
@@ -563,6 +620,8 @@ pub struct Violation {
     pub what: String,
     /// does the component encoder notice this (reject the module)?
     pub hard: bool,
+    /// the offending import, for `import-name` / `import-module`
+    pub import: Option<((String, String), Sig)>,
 }
 
 #[derive(Clone, Debug, Default)]
@@ -577,6 +636,8 @@ pub struct Verdict {
     pub import_abi: BTreeMap<usize, BTreeSet<String>>,
     pub encoder: String,
     pub oracle_inconsistent: Option<String>,
+    /// import names the reference did not know but the component encoder accepts
+    pub reference_overruled: Vec<String>,
     pub component_bytes: usize,
 }
 
@@ -665,7 +726,7 @@ pub fn judge(resolve: &Resolve, world: WorldId, d: &Decls) -> Verdict {
     let exp = expected(resolve, world);
     let mut v = Verdict::default();
     let mut push = |v: &mut Verdict, kind: &str, pattern: String, what: String, hard: bool| {
-        v.violations.push(Violation { kind: kind.into(), pattern, what, hard });
+        v.violations.push(Violation { kind: kind.into(), pattern, what, hard, import: None });
     };
 
     // ---- imports
@@ -711,7 +772,7 @@ pub fn judge(resolve: &Resolve, world: WorldId, d: &Decls) -> Verdict {
                             "import `{}` `{}` ({}, {}) declared as {} but the canonical ABI gives {}",
                             i.module, i.name, i.file, i.ident, i.sig.show(), x.sig.show()
                         ),
-                        true,
+                        x.class != "[task-return]",
                     );
                 } else {
                     good_imports.insert(key, i.sig.clone());
@@ -721,8 +782,9 @@ pub fn judge(resolve: &Resolve, world: WorldId, d: &Decls) -> Verdict {
                 // same name under another module the world knows?
                 let elsewhere: Vec<&(String, String)> =
                     exp.imports.keys().filter(|(_, n)| *n == i.name).collect();
-                let (kind, pat) = if !elsewhere.is_empty() || (i.module != "$root" && root_intrinsic(&i.name).is_some())
-                {
+                let (kind, pat) = if let Some(diag) = exp.diagnose_payload_intrinsic(&i.module, &i.name) {
+                    ("import-name", format!("future/stream-intrinsic:{diag}"))
+                } else if !elsewhere.is_empty() || (i.module != "$root" && root_intrinsic(&i.name).is_some()) {
                     (
                         "import-module",
                         format!("{}@{}", exp.normalise(&i.name), exp.normalise(&i.module)),
@@ -748,6 +810,7 @@ pub fn judge(resolve: &Resolve, world: WorldId, d: &Decls) -> Verdict {
                     ),
                     true,
                 );
+                v.violations.last_mut().unwrap().import = Some((key.clone(), i.sig.clone()));
             }
         }
     }
@@ -932,7 +995,7 @@ pub fn judge(resolve: &Resolve, world: WorldId, d: &Decls) -> Verdict {
         }
     }
 
-    // ---- synthetic module → ComponentEncoder (as generated)
+    // ---- synthetic module → ComponentEncoder
     let realloc = "cabi_realloc".to_string();
     let with_realloc = |mut ex: Vec<(String, Sig)>| {
         if !ex.iter().any(|(n, _)| *n == realloc) {
@@ -940,71 +1003,193 @@ pub fn judge(resolve: &Resolve, world: WorldId, d: &Decls) -> Verdict {
         }
         ex
     };
-    let imps: Vec<((String, String), Sig)> = all_imports.iter().map(|(k, s)| (k.clone(), s.clone())).collect();
-    let raw = vcommon::catch(|| encode(resolve, world, synth_module(&imps, &with_realloc(enc_exports.clone()))));
-    let hard = v.violations.iter().any(|x| x.hard);
-    let raw_msg = match &raw {
-        Ok(Ok(_)) => None,
-        Ok(Err(e)) => Some(format!("{e:#}")),
-        Err(p) => Some(format!("encoder panicked: {p}")),
-    };
-    match (&raw_msg, hard) {
-        (None, false) => v.encoder = "accepted".into(),
-        (Some(_), true) => v.encoder = "rejected-as-predicted".into(),
-        (None, true) => {
-            v.encoder = "accepted-but-reference-rejects".into();
-            v.oracle_inconsistent = Some(format!(
-                "reference flags {:?} but the component encoder accepts the module",
-                v.violations.iter().filter(|x| x.hard).map(|x| format!("{}:{}", x.kind, x.pattern)).collect::<Vec<_>>()
-            ));
-        }
-        (Some(m), false) => {
-            v.encoder = "rejected".into();
-            push(
-                &mut v,
-                "encoder",
-                exp.normalise(&strip_numbers(m)),
-                format!("the component encoder rejects a module with exactly the generated declarations: {m}"),
-                true,
-            );
+    // Functions bound with the async ABI although the WIT does not declare them `async`
+    // (`--async` directives): the validator of the pinned wit-component rejects the `async`
+    // canonical option on a non-async function type. That is reported once (per backend) and the
+    // rest of the judgement continues against a copy of the world in which exactly those
+    // functions are `async`, so that every other declaration is still checked.
+    let mut forced: Vec<&FuncInfo> = vec![];
+    for (idx, set) in &v.import_abi {
+        if set.contains("async") && !exp.import_funcs[*idx].wit_async {
+            forced.push(&exp.import_funcs[*idx]);
         }
     }
-    // ---- repaired module (flagged declarations corrected) must always be accepted
-    let repaired = if raw_msg.is_some() {
-        let gi: Vec<((String, String), Sig)> = good_imports.iter().map(|(k, s)| (k.clone(), s.clone())).collect();
-        let mut fx: Vec<(String, Sig)> = vec![];
+    for (idx, form) in &v.export_abi {
+        if form != "sync" && !exp.funcs[*idx].wit_async {
+            forced.push(&exp.funcs[*idx]);
+        }
+    }
+    let mut patched: Option<Resolve> = None;
+    // a constructor has no `async` form in WIT: the world cannot be patched for it, the encoder's
+    // complaint is then the very same defect and is not reported a second time
+    let mut async_unpatchable = false;
+    if !forced.is_empty() {
+        let mut r = resolve.clone();
+        let mut unpatchable = vec![];
+        for f in &forced {
+            let func: Option<&mut Function> = match f.iface_id {
+                Some(id) => r.interfaces[id].functions.get_mut(&f.name),
+                None => {
+                    let items = if f.import { &mut r.worlds[world].imports } else { &mut r.worlds[world].exports };
+                    match items.get_mut(&WorldKey::Name(f.name.clone())) {
+                        Some(WorldItem::Function(func)) => Some(func),
+                        _ => None,
+                    }
+                }
+            };
+            match func {
+                Some(func) => {
+                    func.kind = match func.kind.clone() {
+                        FunctionKind::Freestanding => FunctionKind::AsyncFreestanding,
+                        FunctionKind::Method(t) => FunctionKind::AsyncMethod(t),
+                        FunctionKind::Static(t) => FunctionKind::AsyncStatic(t),
+                        other => {
+                            if matches!(other, FunctionKind::Constructor(_)) {
+                                unpatchable.push(f.name.clone());
+                            }
+                            other
+                        }
+                    }
+                }
+                None => unpatchable.push(f.name.clone()),
+            }
+        }
+        let first = forced[0];
+        let n = forced.len();
+        // confirm with the trusted encoder that the unpatched world is really rejected for this reason
+        let imps: Vec<((String, String), Sig)> = all_imports.iter().map(|(k, s)| (k.clone(), s.clone())).collect();
+        let ex = with_realloc(enc_exports.clone());
+        let confirmed = match vcommon::catch(|| encode(resolve, world, synth_module(&imps, &ex))) {
+            Ok(Ok(_)) => false,
+            _ => true,
+        };
+        if confirmed {
+            push(
+                &mut v,
+                "async-abi",
+                "function-not-declared-async".into(),
+                format!(
+                    "{n} function(s) not declared `async` in the WIT are bound with the async ABI (first: {} `{}{}`); \
+                     the component-model validator of wit-component rejects the `async` canonical option on a \
+                     non-async function type, so the module cannot be componentized",
+                    if first.import { "import" } else { "export" },
+                    first.iface.as_ref().map(|i| format!("{i}#")).unwrap_or_default(),
+                    first.name
+                ),
+                false,
+            );
+        } else {
+            v.reference_overruled.push("async-abi:function-not-declared-async".into());
+        }
+        async_unpatchable = !unpatchable.is_empty();
+        patched = Some(r);
+    }
+    let enc_resolve: &Resolve = patched.as_ref().unwrap_or(resolve);
+    let enc = |imports: &BTreeMap<(String, String), Sig>, exports: &Vec<(String, Sig)>| -> Result<Encoded, String> {
+        let imps: Vec<((String, String), Sig)> = imports.iter().map(|(k, s)| (k.clone(), s.clone())).collect();
+        let ex = with_realloc(exports.clone());
+        match vcommon::catch(|| encode(enc_resolve, world, synth_module(&imps, &ex))) {
+            Ok(Ok(e)) => Ok(e),
+            Ok(Err(e)) => Err(format!("{e:#}")),
+            Err(p) => Err(format!("encoder panicked: {p}")),
+        }
+    };
+    let mut good_exports: Vec<(String, Sig)> = vec![];
+    {
         let mut names = BTreeSet::new();
         for (n, s) in fixed_exports {
             if names.insert(n.clone()) {
-                fx.push((n, s));
+                good_exports.push((n, s));
             }
         }
-        match vcommon::catch(|| encode(resolve, world, synth_module(&gi, &with_realloc(fx)))) {
-            Ok(Ok(e)) => Some(e),
-            Ok(Err(e)) => {
-                if hard && !v.violations.iter().any(|x| x.kind == "encoder") {
-                    push(
-                        &mut v,
-                        "encoder",
-                        exp.normalise(&strip_numbers(&format!("{e:#}"))),
-                        format!(
-                            "after correcting the declarations the reference flagged, the component encoder still \
-                             rejects the module: {e:#}"
-                        ),
-                        true,
-                    );
-                }
-                None
+    }
+    // (a) exactly what was generated
+    let raw = enc(&all_imports, &enc_exports);
+    let mut final_component: Option<Encoded> = None;
+    if v.violations.iter().all(|x| x.kind == "async-abi") {
+        match raw {
+            Ok(e) => {
+                v.encoder = "accepted".into();
+                final_component = Some(e);
             }
-            Err(p) => {
-                push(&mut v, "encoder", "panic".into(), format!("encoder panicked: {p}"), true);
-                None
+            Err(m) if async_unpatchable && m.contains("requires an async function type") => {
+                v.encoder = "not-run-to-completion(async-constructor)".into();
+            }
+            Err(m) => {
+                v.encoder = "rejected".into();
+                push(
+                    &mut v,
+                    "encoder",
+                    exp.normalise(&strip_numbers(&m)),
+                    format!("the component encoder rejects a module with exactly the generated declarations: {m}"),
+                    true,
+                );
             }
         }
     } else {
-        raw.ok().and_then(|r| r.ok())
-    };
-    if let Some(enc) = repaired {
+        // (b) the declarations the reference accepts, flagged ones corrected/removed
+        match enc(&good_imports, &good_exports) {
+            Err(m) if async_unpatchable && m.contains("requires an async function type") => {
+                v.encoder = "not-run-to-completion(async-constructor)".into();
+            }
+            Err(m) => {
+                v.encoder = "rejected-after-repair".into();
+                push(
+                    &mut v,
+                    "encoder",
+                    exp.normalise(&strip_numbers(&m)),
+                    format!(
+                        "after correcting the declarations the reference flagged, the component encoder still \
+                         rejects the module: {m}"
+                    ),
+                    true,
+                );
+            }
+            Ok(base) => {
+                // (c) the encoder has the last word on import *names*: a flagged import that the
+                // encoder accepts on its own is not reported (reference overruled, counted)
+                let mut keep = vec![];
+                for x in std::mem::take(&mut v.violations) {
+                    if let (true, Some((k, s))) = (x.kind == "import-name" || x.kind == "import-module", x.import.clone()) {
+                        let mut trial = good_imports.clone();
+                        trial.insert(k.clone(), s.clone());
+                        if enc(&trial, &good_exports).is_ok() {
+                            v.reference_overruled.push(format!("{}:{}", x.kind, x.pattern));
+                            good_imports.insert(k, s);
+                            continue;
+                        }
+                    }
+                    keep.push(x);
+                }
+                v.violations = keep;
+                final_component = Some(base);
+                let hard: Vec<String> =
+                    v.violations.iter().filter(|x| x.hard).map(|x| format!("{}:{}", x.kind, x.pattern)).collect();
+                match (&raw, hard.is_empty()) {
+                    (Ok(_), true) => v.encoder = "accepted".into(),
+                    (Err(_), false) => v.encoder = "rejected-as-predicted".into(),
+                    (Ok(_), false) => {
+                        v.encoder = "accepted-but-reference-rejects".into();
+                        v.oracle_inconsistent =
+                            Some(format!("reference flags {hard:?} but the component encoder accepts the module"));
+                    }
+                    (Err(m), true) => {
+                        v.encoder = "rejected".into();
+                        push(
+                            &mut v,
+                            "encoder",
+                            exp.normalise(&strip_numbers(m)),
+                            format!(
+                                "the component encoder rejects a module with exactly the generated declarations: {m}"
+                            ),
+                            true,
+                        );
+                    }
+                }
+            }
+        }
+    }
+    if let Some(enc) = final_component {
         v.component_bytes = enc.bytes.len();
         if enc.exports != exp.export_keys {
             push(
@@ -1031,6 +1216,7 @@ pub fn judge(resolve: &Resolve, world: WorldId, d: &Decls) -> Verdict {
 
 fn strip_numbers(s: &str) -> String {
     // keep messages short and free of indices so that they can serve as keys
+    let s = s.split(" (at offset").next().unwrap_or(s);
     let first = s.split(": ").last().unwrap_or(s);
     let mut out = String::new();
     for c in first.chars().take(140) {
@@ -1043,4 +1229,38 @@ fn strip_numbers(s: &str) -> String {
         }
     }
     out
+}
+
+/// Which ABI form does the generated text use for every imported / exported function?
+/// (used by C17; no encoder run)  Returns (imports: idx → forms, exports: idx → forms).
+pub fn abi_forms(
+    exp: &Expected,
+    d: &Decls,
+) -> (BTreeMap<usize, BTreeSet<String>>, BTreeMap<usize, BTreeSet<String>>) {
+    let mut imp: BTreeMap<usize, BTreeSet<String>> = BTreeMap::new();
+    let mut ex: BTreeMap<usize, BTreeSet<String>> = BTreeMap::new();
+    for i in &d.imports {
+        if !i.referenced {
+            continue;
+        }
+        if let Some(x) = exp.imports.get(&(i.module.clone(), i.name.clone())) {
+            if let Some((idx, asy)) = x.func {
+                imp.entry(idx).or_default().insert(if asy { "async".into() } else { "sync".into() });
+            }
+        }
+    }
+    for x in &d.exports {
+        if let Some(e) = exp.exports.get(&x.name) {
+            match e.class {
+                ExportClass::SyncLift(i) => {
+                    ex.entry(i).or_default().insert("sync".into());
+                }
+                ExportClass::AsyncLift(i) | ExportClass::StackfulLift(i) => {
+                    ex.entry(i).or_default().insert("async".into());
+                }
+                _ => {}
+            }
+        }
+    }
+    (imp, ex)
 }
